@@ -463,7 +463,14 @@ def cmd_check(prop, tier, only_units=None, replay_file=None):
                 log("\n".join(j.out.strip().splitlines()[-15:]))
             return 2
         # generator health: the classes the property cares about must occur
+        waived = []
+        for envlab, prefixes in spec.get("health_optional_if", {}).items():
+            if labels.get(envlab, 0) > 0:
+                waived += prefixes
+                log("NOTE: %s - health thresholds for %s waived" % (envlab, prefixes))
         for lab, minimum in tier_val(spec.get("health", {}), tier).items() if spec.get("health") else []:
+            if any(lab.startswith(w) for w in waived):
+                continue
             if labels.get(lab, 0) < minimum:
                 log("UNDECIDED: generator health: label %r seen %d times, need >= %d" % (lab, labels.get(lab, 0), minimum))
                 return 2
